@@ -239,8 +239,28 @@ def run(ctx, progs):
             ss = by_key.get(key, [])
             if not ss:
                 return None
+            from ..bounds import Bounds, norm as bnorm
+
+            def own_view(a, depth=0):
+                """self, or a successful subslice / offset / get_slice view of self (to any depth)"""
+                a = unref(a)
+                if a[:2] == ('param', 1):
+                    return True
+                if depth < 4 and a[0] == 'ok':
+                    from .. import checks
+                    pr = checks.producer(a)
+                    if pr[0] == 'call' and pr[2] and re.search(r"VolatileSlice::(subslice|offset)$|VolatileMemory::get_slice$", canon(pr[1])):
+                        return own_view(pr[2][0], depth + 1)
+                return False
             for s2 in ss:
                 o = s2["origin"]
+                if o[0] == 'guard' and effects.base_of(o[1])[:2] != ('param', 1) and own_view(effects.base_of(o[1])) and s2["count"] is not None:
+                    # through the guard of a range-checked VIEW of self, moving at most that view's length (a successful
+                    # subslice(o, n) is exactly n bytes long): still inside what the function names
+                    acc = effects.base_of(o[1])
+                    if Bounds(s2["body"].facts_at(s2["pos"])).le(eff.inline(s2["count"]), ('field', acc, 'size')):
+                        continue
+                    return None
                 if o[0] != 'guard' or effects.base_of(o[1])[:2] != ('param', 1):
                     return None
                 cnt = s2["count"]
@@ -253,7 +273,7 @@ def run(ctx, progs):
                     (is_call(unref(c1), "cmp::min") and any(unref(x)[0] == 'field' and unref(x)[2] == 'size' and effects.base_of(unref(x)[1])[:2] == ('param', 1) for x in (eff.inline(y) for y in unref(c1)[2])))
                 if not ok_cnt:
                     return None
-            return "not in the table: every access goes through self's own guard and moves at most self.len() bytes"
+            return "not in the table: every access goes through the guard of self (or of a range-checked view of self) and moves at most that accessor's length"
         for key, s in sorted(touched.items()):
             why = None
             for rx, reason in MAY_TOUCH:
